@@ -34,6 +34,23 @@ def canon(o, depth=0):
         return "D{" + ",".join(canon(k, depth + 1) + ":" + canon(v, depth + 1) for k, v in sorted(o.items(), key=lambda kv: repr(kv[0]))) + "}"
     if inspect.isfunction(o) or inspect.isbuiltin(o) or inspect.ismethod(o):
         return "<fn %s>" % getattr(o, "__name__", "?")
+    # library value objects are observed through their PUBLIC views: what "the object was changed" means for a caller.
+    # (A structural rendering of the private fields would also flag a correct per-instance memo, which changes nothing a
+    # caller can see; a memo that does leak shows in the views, in DETERMINISTIC and in the re-targeting scenarios.)
+    cn = type(o).__name__
+    try:
+        if cn == "Angle":
+            return "Angle{%r,%r}" % (o(), o.get_tolerance())
+        if cn == "Epoch":
+            return "Epoch{%r}" % (o.jde(),)
+        if cn == "Interpolation":
+            return "Interpolation{%s,%r}" % (repr(o), o.get_tolerance())
+        if cn == "CurveFitting":
+            return "CurveFitting{%s}" % (repr(o),)
+        if cn in ("Ellipsoid", "Earth"):
+            return "%s{%s}" % (cn, str(o))
+    except Exception as ex:
+        return "%s{unobservable:%s}" % (cn, type(ex).__name__)
     if hasattr(o, "__dict__"):
         return type(o).__name__ + "{" + ",".join(k + "=" + canon(v, depth + 1) for k, v in sorted(vars(o).items())) + "}"
     return "<%s>" % type(o).__name__
